@@ -97,7 +97,18 @@ def synthetic(t, attach=None, force=None, misroute: bool = True, on_inject=None)
                 tid = live
             w.call(ent, hk, "cancel", arg=tid)
         elif op == 5:
-            w.call(a, "src", "put", arg=w.put_request_obj())
+            req = w.put_request_obj()
+            # put requests naming only one of the two files, or a source file that does not exist
+            v = t.weighted([6, 1, 1, 1], "put variant")
+            if v == 1:
+                req.dest_file = None
+            elif v == 2:
+                req.source_file = None
+            elif v == 3 and req.source_file is not None:
+                from pathlib import Path as _P
+
+                req.source_file = _P("src/nope.bin")
+            w.call(a, "src", "put", arg=req)
         elif op == 6 and nodrain_mode:
             ent = [a, b][t.choose(2, "nodrain who")]
             ent.nodrain = not ent.nodrain
